@@ -23,7 +23,7 @@ from vk.report import Collector, Report, run_parallel, std_args
 
 PROP = "C05"
 HARNESS = os.path.join(os.path.dirname(os.path.abspath(__file__)), "h05.py")
-LIBS = ["comp", "alias", "conn", "redecl", "func"]
+LIBS = ["comp", "alias", "conn", "redecl", "func", "imports"]
 
 
 def repo_pairs(path):
@@ -167,7 +167,7 @@ def main():
     cov["exhaustive"] = all(v.kind == "confirmed" for v in vs)
     cov["functions_encoded"] = ["pymoca.tree.flatten (find_class, flatten_class, build_instance_tree, flatten_symbols, expand_connectors, annotate_states) and casadi generator.generate, "
                                 "called repeatedly on one tree (executed symbolically by CrossHair)"]
-    cov["bounds"] = ("5 generated libraries of 2-3 requestable classes with 4 symbolic integer literals each; all request sequences of length 2 (thorough: length 3, each step flatten or "
+    cov["bounds"] = ("6 generated libraries (component, type alias in a package, connectors, redeclare, functions, qualified/unqualified imports) of 2-3 requestable classes with 4 symbolic integer literals each; all request sequences of length 2 (thorough: length 3, each step flatten or "
                      "CasADi generate); concrete: ordered class pairs of the repository's test models (quick: every second file), real CLI with every ordered pair of models per library")
     rep.assumptions += ["the oracle is the same request on an independently unpickled tree", "results are compared as Node.to_json structures (symbolic leaves compared by the solver)"]
     return rep.finish()
